@@ -220,6 +220,7 @@ class WSConnModel:
         ctx = interp.ctx
         k = ctx.choose(2, f"ws.send@{fr.line}", ["ok", "LocalProtocolError"])
         if k == 1:
+            interp.traces.setdefault("ws_refused", []).append(args[0])
             raise PyRaise(SObj(wsproto.utilities.LocalProtocolError, {"args": ()}), fr.where())
         ev = args[0]
         interp.traces.setdefault("ws", []).append(ev)
@@ -236,9 +237,10 @@ def _ws_builtins(interp):
         return PList(sym=sq)
 
     def generate_accept_token(a, k, fr):
-        from .sym import str_to_z3
+        from .sym import SymOpt, str_to_z3
 
-        return SymStr(s_accept_token(str_to_z3(a[0])), "bytes")
+        key = a[0].value if isinstance(a[0], SymOpt) else a[0]  # (the token of the key, when there is one)
+        return SymStr(s_accept_token(str_to_z3(key)), "bytes")
 
     def server_extensions_handshake(a, k, fr):
         from .sym import SymOpt
